@@ -752,6 +752,28 @@ Section EncoderProofs.
     destruct (client_no_trailers c src extra) as (ds & F & T). rewrite Fn in F. eauto.
   Qed.
 
+  (* client role with the polls spelled out (nothing can hide between two None): the polls are
+     [pre] then None only, [pre] has no None, its frames are DATA chunks then at most the error *)
+  Theorem client_body_spec (c : cfg) src extra ms ps fin :
+    outcome c (items_of src) ms ps fin ->
+    exists pre k ds,
+      run_body c Client src extra = pre ++ repeat BNone (S k + extra) /\
+      ~ In BNone pre /\
+      frames_of pre = map FData ds ++ match fin with Some st => [FErr st] | None => [] end /\
+      forall t, ~ In (BFrame (FTrailers t)) (run_body c Client src extra).
+  Proof.
+    intros O. destruct (outcome_good _ _ _ _ _ O) as [_ Fn].
+    destruct (run_body_ref c Client src extra) as [k R].
+    destruct (ref_none_last c Client src []) as (pre & P & NN).
+    destruct (ref_structure c Client src [] [] eq_refl (fun _ => eq_refl)) as (gs & F & _ & _).
+    destruct (client_no_trailers c src extra) as (_ & _ & T).
+    exists pre, k, (map (chunk_of c) gs). rewrite R, P, <- app_assoc. cbn [app repeat].
+    split; [reflexivity|]. split; [exact NN|]. split.
+    - rewrite P, frames_of_app in F. cbn in F. rewrite app_nil_r in F. rewrite F, Fn.
+      destruct fin; reflexivity.
+    - intros t H. apply (T t). rewrite R, P, <- app_assoc. exact H.
+  Qed.
+
   (* ---------------- C01, encoder half ---------------- *)
   Theorem enc_concat (c : cfg) r src extra ms ps :
     items_of src = map IOk ms -> Forall2 (encodes c) ms ps ->
@@ -853,6 +875,118 @@ Section EncoderProofs.
         * apply Fe.
     - apply repeat_spec in H. discriminate.
   Qed.
+
+  (* ---------------- Body::is_end_stream ---------------- *)
+  Notation body_trace_es := (body_trace_es msg enc ser compress).
+  Notation run_body_es := (run_body_es msg enc ser compress).
+
+  Lemma trace_es_fst (c : cfg) n : forall b src,
+    map fst (body_trace_es c n b src) = body_trace c n b src.
+  Proof.
+    induction n as [|n IH]; intros b src; [reflexivity|].
+    cbn [Encoder.body_trace_es Encoder.body_trace].
+    destruct (body_poll c b src) as [[o b'] src']. cbn [map fst]. now rewrite IH.
+  Qed.
+
+  Lemma trace_es_ended (c : cfg) n : forall b src, b_end b = true ->
+    body_trace_es c n b src = repeat (BNone, true) n.
+  Proof.
+    induction n as [|n IH]; intros b src H; [reflexivity|].
+    cbn [Encoder.body_trace_es repeat]. unfold Encoder.body_poll. rewrite H.
+    unfold body_is_end_stream. rewrite H. f_equal. now apply IH.
+  Qed.
+
+  (* one poll: is_end_stream flips only on the poll that produces the trailers, and only for
+     a server body *)
+  Lemma poll_sets_end (c : cfg) b src o b' src' :
+    b_end b = false -> body_poll c b src = (o, b', src') -> b_end b' = true ->
+    b_role b = Server /\ exists st, o = BFrame (trailers_frame st).
+  Proof.
+    unfold Encoder.body_poll. intros E. rewrite E.
+    destruct (enc_poll c (b_inner b) src) as [[po inner] s1].
+    destruct po; destruct (b_role b); intros H; injection H as <- <- <-; cbn [b_end];
+      intros K; try congruence; split; eauto.
+  Qed.
+
+  Lemma poll_keeps_client (c : cfg) b src o b' src' :
+    b_role b = Client -> b_end b = false -> body_poll c b src = (o, b', src') ->
+    b_role b' = Client /\ b_end b' = false.
+  Proof.
+    unfold Encoder.body_poll. intros R E. rewrite E.
+    destruct (enc_poll c (b_inner b) src) as [[po inner] s1].
+    destruct po; rewrite ?R; intros H; injection H as <- <- <-; cbn; auto.
+  Qed.
+
+  (* once is_end_stream() has answered true, every later poll answers None *)
+  Lemma es_after_true (c : cfg) n : forall b src pre o rest,
+    body_trace_es c n b src = pre ++ (o, true) :: rest ->
+    rest = repeat (BNone, true) (length rest).
+  Proof.
+    induction n as [|n IH]; intros b src pre o rest H.
+    - destruct pre; discriminate.
+    - cbn [Encoder.body_trace_es] in H. destruct (body_poll c b src) as [[o1 b1] s1] eqn:P.
+      destruct pre as [|x pre]; cbn [app] in H; injection H as H1 H2.
+      + intros. subst rest. unfold body_is_end_stream in *.
+        rewrite trace_es_ended by congruence. now rewrite repeat_length.
+      + eapply IH; eauto.
+  Qed.
+
+  (* the first true answer comes with the trailers frame *)
+  Lemma es_first_true (c : cfg) n : forall b src pre o rest,
+    b_end b = false ->
+    body_trace_es c n b src = pre ++ (o, true) :: rest ->
+    Forall (fun x => snd x = false) pre ->
+    b_role b = Server /\ exists st, o = BFrame (trailers_frame st).
+  Proof.
+    induction n as [|n IH]; intros b src pre o rest E H F.
+    - destruct pre; discriminate.
+    - cbn [Encoder.body_trace_es] in H. destruct (body_poll c b src) as [[o1 b1] s1] eqn:P.
+      destruct pre as [|x pre]; cbn [app] in H; injection H as H1 H2.
+      + intros. subst. eapply poll_sets_end; eauto.
+      + inversion F as [|? ? Fx F']; subst. cbn [snd] in Fx. unfold body_is_end_stream in Fx.
+        destruct (IH b1 s1 pre o rest Fx H2 F') as [R X]. split; [|exact X].
+        destruct (b_role b) eqn:Rb; [|reflexivity].
+        destruct (poll_keeps_client c b src o1 b1 s1 Rb E P) as [R1 _]. congruence.
+  Qed.
+
+  Lemma es_client_false (c : cfg) n : forall b src,
+    b_role b = Client -> b_end b = false ->
+    Forall (fun x => snd x = false) (body_trace_es c n b src).
+  Proof.
+    induction n as [|n IH]; intros b src R E; [constructor|].
+    cbn [Encoder.body_trace_es]. destruct (body_poll c b src) as [[o1 b1] s1] eqn:P.
+    destruct (poll_keeps_client c b src o1 b1 s1 R E P) as [R1 E1].
+    constructor; [exact E1|]. now apply IH.
+  Qed.
+
+  Lemma run_body_es_fst (c : cfg) r src extra :
+    map fst (run_body_es c r src extra) = run_body c r src extra.
+  Proof. apply trace_es_fst. Qed.
+
+  (* M3: is_end_stream() is false before the first poll, never true for a client body, and
+     for a server body it turns true exactly with the poll that hands out the trailers; from
+     then on every poll answers None - so a consumer that stops polling as soon as
+     is_end_stream() is true has received every frame the body will ever produce *)
+  Theorem is_end_stream_safe (c : cfg) r src extra :
+    body_is_end_stream (body_init r) = false /\
+    (r = Client -> Forall (fun x => snd x = false) (run_body_es c r src extra)) /\
+    forall pre o rest,
+      run_body_es c r src extra = pre ++ (o, true) :: rest ->
+      rest = repeat (BNone, true) (length rest) /\
+      frames_of (map fst (pre ++ [(o, true)])) = frames_of (run_body c r src extra) /\
+      (Forall (fun x => snd x = false) pre -> r = Server /\ exists st, o = BFrame (trailers_frame st)).
+  Proof.
+    split; [reflexivity|]. split.
+    - intros ->. now apply es_client_false.
+    - intros pre o rest H. pose proof (es_after_true _ _ _ _ _ _ _ H) as R. split; [exact R|]. split.
+      + rewrite <- run_body_es_fst, H. rewrite !map_app, !frames_of_app. cbn [map fst].
+        rewrite R. cbn [app].
+        assert (Z : forall k, frames_of (map fst (repeat (BNone, true) k)) = []).
+        { induction k as [|k IHk]; [reflexivity|exact IHk]. }
+        f_equal. specialize (Z (length rest)). unfold frames_of in *. cbn [flat_map]. now rewrite Z.
+      + intros F. unfold Encoder.run_body_es in H.
+        destruct (es_first_true c _ (body_init r) src pre o rest eq_refl H F) as [Rr X]. auto.
+  Qed.
 End EncoderProofs.
 
 Arguments payload_of {msg enc}. Arguments enc_one {msg enc}. Arguments frame_of {enc}.
@@ -879,21 +1013,66 @@ Proof. intros H. now rewrite get_all_sanitize, H. Qed.
 Ltac hm_ins :=
   repeat first [ rewrite get_all_insert_same | rewrite get_all_insert_other by reflexivity ].
 
+(* PathAndQuery::path of the origin: everything before the first '?', "/" if that is empty *)
+Lemma until_qmark_spec l :
+  exists q, l = until_qmark l ++ q /\ ~ In 63 (until_qmark l) /\ (q = [] \/ exists q', q = 63 :: q').
+Proof.
+  induction l as [|c l (q & E & NI & Q)]; cbn [until_qmark].
+  - exists []. repeat split; auto.
+  - destruct (c =? 63) eqn:C.
+    + apply N.eqb_eq in C. subst c. exists (63 :: l). repeat split; eauto.
+    + exists q. cbn [app]. rewrite <- E. repeat split; auto.
+      intros [H|H]; [subst c; rewrite N.eqb_refl in C; discriminate|auto].
+Qed.
+
+(* the exact request target, stated without the model's helper functions.  With p = the origin's
+   path-and-query up to its first '?' (the origin's query never matters):
+     origin has no path-and-query, or p is empty or exactly "/"   =>  the method path
+     otherwise                                                    =>  p ++ method path
+   No slash is removed or added to a real prefix: origin path "/api/" gives
+   "/api//pkg.Svc/Method" (the prefix is the caller's choice).  F-C03b: before fix ab6a0ca8 the
+   test looked at path AND query, and an origin "/?q=1" gave "//pkg.Svc/Method". *)
+Definition target_spec (origin_pq : option (list N)) (path target : list N) : Prop :=
+  (origin_pq = None -> target = path) /\
+  (forall pnq, origin_pq = Some pnq ->
+     exists p q, pnq = p ++ q /\ ~ In 63 p /\ (q = [] \/ exists q', q = 63 :: q') /\
+                 (p = [] \/ p = [47] -> target = path) /\
+                 (p <> [] -> p <> [47] -> target = p ++ path)).
+
+Lemma target_spec_unfolded origin_pq path target :
+  target_spec origin_pq path target <->
+  ((origin_pq = None -> target = path) /\
+   (forall pnq, origin_pq = Some pnq ->
+      exists p q, pnq = p ++ q /\ ~ In 63 p /\ (q = [] \/ exists q', q = 63 :: q') /\
+                  (p = [] \/ p = [47] -> target = path) /\
+                  (p <> [] -> p <> [47] -> target = p ++ path))).
+Proof. split; intros H; exact H. Qed.
+
+Lemma request_target_spec origin path : target_spec (u_pq origin) path (request_target origin path).
+Proof.
+  unfold target_spec, request_target. split.
+  - intros ->. reflexivity.
+  - intros pnq ->. destruct (until_qmark_spec pnq) as (q & E1 & NI & Q).
+    exists (until_qmark pnq), q. split; [exact E1|]. split; [exact NI|]. split; [exact Q|].
+    unfold pq_path. split.
+    + intros [-> | ->]; reflexivity.
+    + intros H1 H2. destruct (until_qmark pnq) as [|c r] eqn:U; [contradiction|].
+      destruct (bytes_eqb (c :: r) [47]) eqn:E; [apply bytes_eqb_eq in E; contradiction|reflexivity].
+Qed.
+
 (* GrpcConfig::prepare_request: it panics exactly for an origin http::Uri::from_parts refuses
    (scheme without authority, authority without scheme); otherwise the request is an HTTP/2 POST
-   whose target is the method path appended to the origin's path (nothing prepended when the
-   origin has no path or "/"), with te: trailers, content-type: application/grpc, grpc-encoding
+   to exactly [target_spec], with te: trailers, content-type: application/grpc, grpc-encoding
    = the chosen send encoding (when none is chosen: whatever the caller's metadata said, the name
    is not reserved) and no grpc-status *)
 Theorem request_head origin send accept md path :
   match u_scheme origin, u_authority origin with
   | Some _, None | None, Some _ => prepare_request origin send accept md path = None
   | _, _ =>
-      exists r, prepare_request origin send accept md path = Some r /\
+      exists r target, prepare_request origin send accept md path = Some r /\
         rq_method r = val_POST /\ rq_version r = HTTP_2 /\
         u_scheme (rq_uri r) = u_scheme origin /\ u_authority (rq_uri r) = u_authority origin /\
-        (exists prefix, u_pq (rq_uri r) = Some (prefix ++ path) /\
-           (u_pq origin = None \/ u_pq origin = Some [47] -> prefix = [])) /\
+        u_pq (rq_uri r) = Some target /\ target_spec (u_pq origin) path target /\
         hm_get_all (rq_headers r) hdr_te = [val_trailers] /\
         hm_get_all (rq_headers r) hdr_content_type = [val_application_grpc] /\
         hm_get_all (rq_headers r) hdr_grpc_encoding =
@@ -903,11 +1082,10 @@ Theorem request_head origin send accept md path :
 Proof.
   assert (Main : (match u_scheme origin, u_authority origin with
                   | Some _, None | None, Some _ => False | _, _ => True end) ->
-    exists r, prepare_request origin send accept md path = Some r /\
+      exists r target, prepare_request origin send accept md path = Some r /\
         rq_method r = val_POST /\ rq_version r = HTTP_2 /\
         u_scheme (rq_uri r) = u_scheme origin /\ u_authority (rq_uri r) = u_authority origin /\
-        (exists prefix, u_pq (rq_uri r) = Some (prefix ++ path) /\
-           (u_pq origin = None \/ u_pq origin = Some [47] -> prefix = [])) /\
+        u_pq (rq_uri r) = Some target /\ target_spec (u_pq origin) path target /\
         hm_get_all (rq_headers r) hdr_te = [val_trailers] /\
         hm_get_all (rq_headers r) hdr_content_type = [val_application_grpc] /\
         hm_get_all (rq_headers r) hdr_grpc_encoding =
@@ -915,20 +1093,17 @@ Proof.
         hm_get_all (rq_headers r) hdr_grpc_status = []).
   { intros Ok. unfold prepare_request. cbn [u_scheme u_authority u_pq].
     replace (negb _) with false by (destruct (u_scheme origin), (u_authority origin); tauto || reflexivity).
-    eexists. split; [reflexivity|]. cbn [rq_method rq_version rq_uri rq_headers u_scheme u_authority u_pq].
+    eexists. exists (request_target origin path). split; [reflexivity|].
+    cbn [rq_method rq_version rq_uri rq_headers u_scheme u_authority u_pq].
     repeat split.
-    - destruct (u_pq origin) as [pnq|].
-      + destruct (bytes_eqb pnq [47]) eqn:E.
-        * exists []. split; [reflexivity|auto].
-        * exists (pq_path pnq). split; [reflexivity|]. intros [H|H]; [discriminate|].
-          injection H as ->. discriminate.
-      + exists []. split; [reflexivity|auto].
+    - apply request_target_spec.
+    - apply request_target_spec.
     - destruct (accept_value accept), send; hm_ins; reflexivity.
     - destruct (accept_value accept), send; hm_ins; reflexivity.
     - destruct (accept_value accept), send; hm_ins; try reflexivity; now apply sanitize_keeps.
     - destruct (accept_value accept), send; hm_ins; now apply sanitize_drops. }
   destruct (u_scheme origin) eqn:S, (u_authority origin) eqn:A; try (apply Main; exact I);
-    unfold prepare_request; rewrite S, A; reflexivity.
+    unfold prepare_request; cbn [u_scheme u_authority]; rewrite S, A; reflexivity.
 Qed.
 
 (* server::Grpc::map_response / Status::into_http: HTTP 200 and content-type application/grpc
@@ -972,11 +1147,10 @@ Theorem heads origin send accept md path resp ae :
   match u_scheme origin, u_authority origin with
   | Some _, None | None, Some _ => prepare_request origin send accept md path = None
   | _, _ =>
-      exists r, prepare_request origin send accept md path = Some r /\
+      exists r target, prepare_request origin send accept md path = Some r /\
         rq_method r = val_POST /\ rq_version r = HTTP_2 /\
         u_scheme (rq_uri r) = u_scheme origin /\ u_authority (rq_uri r) = u_authority origin /\
-        (exists prefix, u_pq (rq_uri r) = Some (prefix ++ path) /\
-           (u_pq origin = None \/ u_pq origin = Some [47] -> prefix = [])) /\
+        u_pq (rq_uri r) = Some target /\ target_spec (u_pq origin) path target /\
         hm_get_all (rq_headers r) hdr_te = [val_trailers] /\
         hm_get_all (rq_headers r) hdr_content_type = [val_application_grpc] /\
         hm_get_all (rq_headers r) hdr_grpc_encoding =
@@ -1000,3 +1174,177 @@ Theorem heads origin send accept md path resp ae :
         hm_get_all (rs_headers r) hdr_grpc_status = [cv]
   end.
 Proof. split; [apply request_head | apply response_head]. Qed.
+
+(* the Channel layers leave everything C03 speaks about alone: method, version, target path,
+   te, content-type, grpc-encoding, grpc-status; scheme and authority become the endpoint's and
+   there is exactly one user-agent, ending in tonic's own *)
+Theorem channel_keeps_head origin custom tonic_ua r :
+  match u_scheme origin, u_authority origin with
+  | Some sc, Some au =>
+      exists r', channel_request origin custom tonic_ua r = ChOk r' /\
+        rq_method r' = rq_method r /\ rq_version r' = rq_version r /\
+        u_pq (rq_uri r') = u_pq (rq_uri r) /\
+        u_scheme (rq_uri r') = Some sc /\ u_authority (rq_uri r') = Some au /\
+        (forall k, bytes_eqb hdr_user_agent k = false ->
+                   hm_get_all (rq_headers r') k = hm_get_all (rq_headers r) k) /\
+        hm_get_all (rq_headers r') hdr_user_agent =
+          [match custom with Some c => c ++ [32] ++ tonic_ua | None => tonic_ua end]
+  | _, _ => channel_request origin custom tonic_ua r = ChErr
+  end.
+Proof.
+  unfold channel_request. destruct (u_scheme origin), (u_authority origin); try reflexivity.
+  eexists. split; [reflexivity|]. cbn [rq_method rq_version rq_uri rq_headers u_pq u_scheme u_authority].
+  repeat split.
+  - intros k Hk. now apply get_all_insert_other.
+  - apply get_all_insert_same.
+Qed.
+
+(* ------------------------------------------------------------------------------------------
+   head <-> body: the encoding a head announces is the one its body is configured with
+   ------------------------------------------------------------------------------------------ *)
+(* whatever add_header is given, what it returns has exactly one grpc-status and keeps the
+   content-type it found *)
+Lemma status_into_http_shape st r : status_into_http st = Some r ->
+  rs_status r = 200 /\ rs_body r = false /\
+  hm_get_all (rs_headers r) hdr_content_type = [val_application_grpc] /\
+  exists cv, hm_get_all (rs_headers r) hdr_grpc_status = [cv].
+Proof.
+  unfold status_into_http, add_header.
+  destruct (code_to_hv (st_code st)) as [cv|]; [|discriminate].
+  set (m0 := hm_insert [] hdr_content_type val_application_grpc).
+  assert (CT : hm_get_all (hm_extend m0 (sanitize (st_md st))) hdr_content_type = [val_application_grpc]).
+  { rewrite get_all_extend. rewrite contains_false_get_all; [reflexivity|]. now apply sanitize_drops. }
+  destruct (st_msg st); destruct (st_details st);
+    repeat match goal with |- context [mk_hv ?x] => destruct (mk_hv x) end;
+    intros H; try discriminate; injection H as <-; cbn [rs_status rs_body rs_headers];
+    repeat split; try (exists cv); hm_ins; auto.
+Qed.
+
+Theorem client_call_link cl md path h c :
+  client_call cl md path = Some (h, c) ->
+  prepare_request (cl_origin cl) (cl_send cl) (cl_accept cl) md path = Some h /\
+  comp c = cl_send cl /\ override_disable c = false /\ max c = cl_max cl /\
+  match eff_comp c with
+  | Some e => hm_get_all (rq_headers h) hdr_grpc_encoding = [enc_name e]
+  | None => flag_of c = 0
+  end.
+Proof.
+  unfold client_call. destruct (prepare_request _ _ _ _ _) as [h0|] eqn:P; [|discriminate].
+  intros H. injection H as <- <-. cbn [comp override_disable max]. repeat split.
+  unfold eff_comp, flag_of, eff_comp. cbn [comp override_disable].
+  pose proof (request_head (cl_origin cl) (cl_send cl) (cl_accept cl) md path) as R.
+  destruct (cl_send cl) as [e|]; [|reflexivity].
+  destruct (u_scheme (cl_origin cl)), (u_authority (cl_origin cl));
+    try (rewrite P in R; discriminate);
+    destruct R as (r & t & Pr & _ & _ & _ & _ & _ & _ & _ & _ & En & _);
+    rewrite P in Pr; injection Pr as <-; exact En.
+Qed.
+
+(* every response of the four handler entry points: HTTP 200, content-type application/grpc;
+   either trailers-only (no body, exactly one grpc-status in the headers) or a body whose
+   EncodeBody is configured with the negotiated encoding - an encoding the server may send -,
+   which is also the one the head announces; no grpc-status in such a head *)
+Theorem server_call_link sv sh rh has_msg hr r oc :
+  server_call sv sh rh has_msg hr = Some (r, oc) ->
+  rs_status r = 200 /\
+  hm_get_all (rs_headers r) hdr_content_type = [val_application_grpc] /\
+  match oc with
+  | None => rs_body r = false /\ exists cv, hm_get_all (rs_headers r) hdr_grpc_status = [cv]
+  | Some c =>
+      rs_body r = true /\ hm_get_all (rs_headers r) hdr_grpc_status = [] /\
+      max c = sv_max sv /\
+      comp c = from_accept_encoding_header (hm_get rh hdr_grpc_accept_encoding) (sv_send sv) /\
+      match eff_comp c with
+      | Some e => hm_get_all (rs_headers r) hdr_grpc_encoding = [enc_name e]
+      | None => flag_of c = 0
+      end
+  end.
+Proof.
+  unfold server_call.
+  set (ae := from_accept_encoding_header _ _).
+  assert (Rej : forall st, match map_response (inr st) ae with Some r0 => Some (r0, @None (cfg cenc)) | None => None end = Some (r, oc) ->
+           rs_status r = 200 /\ hm_get_all (rs_headers r) hdr_content_type = [val_application_grpc] /\
+           match oc with
+           | None => rs_body r = false /\ exists cv, hm_get_all (rs_headers r) hdr_grpc_status = [cv]
+           | Some c => rs_body r = true /\ hm_get_all (rs_headers r) hdr_grpc_status = [] /\
+               max c = sv_max sv /\ comp c = ae /\
+               match eff_comp c with
+               | Some e => hm_get_all (rs_headers r) hdr_grpc_encoding = [enc_name e]
+               | None => flag_of c = 0 end
+           end).
+  { intros st. cbn [map_response]. destruct (status_into_http st) as [r0|] eqn:S; [|discriminate].
+    intros H. injection H as <- <-. destruct (status_into_http_shape _ _ S) as (A & B & C & D). auto. }
+  destruct (from_encoding_header _ _) as [st|_]; [apply Rej|].
+  destruct (request_is_unary sh && negb has_msg); [apply Rej|].
+  destruct hr as [md dis|st]; [|apply Rej].
+  pose proof (response_head (inl md) ae) as (r0 & M & A & B & C & D & E). rewrite M.
+  intros H. injection H as <- <-. cbn [max comp]. repeat split; auto.
+  unfold eff_comp, flag_of, eff_comp. cbn [comp override_disable].
+  destruct (if response_is_unary sh then dis else false); [reflexivity|].
+  rewrite E. destruct ae; reflexivity.
+Qed.
+
+Lemma find_map_enabled_sound en toks e : find_map_enabled en toks = Some e -> enabled en e = true.
+Proof.
+  induction toks as [|t r IH]; cbn; [discriminate|].
+  destruct (enc_of_name (trim t)) as [e0|]; [|exact IH].
+  destruct (enabled en e0) eqn:E; [|exact IH]. intros H. now injection H as <-.
+Qed.
+(* the negotiated response encoding is one the server was configured to send (C05's F-C05a) *)
+Lemma negotiated_is_enabled hdr en e : from_accept_encoding_header hdr en = Some e -> enabled en e = true.
+Proof.
+  unfold from_accept_encoding_header. destruct en; [discriminate|]. destruct hdr; [|discriminate].
+  destruct (hv_is_str l); [|discriminate]. apply find_map_enabled_sound.
+Qed.
+
+(* the property's sentence, head and body together: in every call the body parses under the
+   independent grammar to the encoded messages, and each payload is the serialization -
+   compressed, with the encoding the head of the same call announces, exactly when the flag
+   is 1 *)
+Section CallConformance.
+  Variable msg : Type.
+  Variable ser : msg -> option (list N).
+  Variable compress : cenc -> list N -> list N.
+
+  Definition payloads_conform (announced : list (list N)) (flag : N) (ms : list msg) (ps : list (list N)) : Prop :=
+    Forall2 (fun m p => exists s, ser m = Some s /\
+       ((flag = 1 /\ exists e, announced = [enc_name e] /\ p = compress e s) \/
+        (flag = 0 /\ p = s))) ms ps.
+
+  Lemma conform_of_grammar (c : cfg cenc) announced ms ps :
+    match eff_comp c with Some e => announced = [enc_name e] | None => flag_of c = 0 end ->
+    Forall2 (fun m p => exists s, ser m = Some s /\
+               p = match eff_comp c with Some e => compress e s | None => s end) ms ps ->
+    payloads_conform announced (flag_of c) ms ps.
+  Proof.
+    intros L F. unfold payloads_conform. induction F as [|m p ms ps (s & S & P) F IH]; constructor; auto.
+    exists s. split; [exact S|]. unfold flag_of in *. destruct (eff_comp c) as [e|].
+    - left. split; [reflexivity|]. eauto.
+    - right. auto.
+  Qed.
+
+  Theorem server_call_conformant sv sh rh has_msg hr r c src extra ms ps fin :
+    server_call sv sh rh has_msg hr = Some (r, Some c) ->
+    outcome ser compress c (items_of src) ms ps fin ->
+    spec_body (concat (datas_of (frames_of (run_body msg cenc ser compress c Server src extra)))) =
+      Some (map (pair (flag_of c)) ps) /\
+    payloads_conform (hm_get_all (rs_headers r) hdr_grpc_encoding) (flag_of c) ms ps.
+  Proof.
+    intros S O. destruct (server_call_link _ _ _ _ _ _ _ S) as (_ & _ & _ & _ & _ & _ & L).
+    destruct (body_grammar msg cenc ser compress c Server src extra ms ps fin O) as (G & _ & F).
+    split; [exact G|]. now apply conform_of_grammar.
+  Qed.
+
+  Theorem client_call_conformant cl md path h c src extra ms ps fin :
+    client_call cl md path = Some (h, c) ->
+    outcome ser compress c (items_of src) ms ps fin ->
+    spec_body (concat (datas_of (frames_of (run_body msg cenc ser compress c Client src extra)))) =
+      Some (map (pair (flag_of c)) ps) /\
+    payloads_conform (hm_get_all (rq_headers h) hdr_grpc_encoding) (flag_of c) ms ps.
+  Proof.
+    intros S O. destruct (client_call_link _ _ _ _ _ S) as (_ & _ & _ & _ & L).
+    destruct (body_grammar msg cenc ser compress c Client src extra ms ps fin O) as (G & _ & F).
+    split; [exact G|]. now apply conform_of_grammar.
+  Qed.
+End CallConformance.
+Arguments payloads_conform {msg}.
